@@ -16,7 +16,7 @@ for d in sorted(glob.glob("/verif/seeded/*/")):
     if args and not any(name.startswith(a) for a in args):
         continue
     meta = json.load(open(d + "meta.json"))
-    prop = meta["property"]
+    prop = meta.get("regress_check", meta["property"])
     t0 = time.time()
     p = subprocess.run(["/verif/tools/try_seed.sh", d + "patch.diff", "quick", prop], capture_output=True, text=True)
     txt = p.stdout + p.stderr
